@@ -263,12 +263,8 @@ func (dsm *DsManager) DeleteDataset(name string) error {
 	dsm.store.datasets.Delete(name)
 	dsm.store.datasetsByInternalID.Delete(existingDataset.InternalID)
 	key := existingDataset.getStorageKey()
-	err := dsm.store.deleteValue(key)
-	if err != nil {
-		return err
-	}
+	verifhook.Point("dsm.delete.begin", name)
 
-	verifhook.Point("dsm.delete.recorddeleted", name)
 	// record we deleted it.
 	// swap map out with new modified copy of map to avoid concurrent read/write issues which can occur if
 	// a user deletes a dataset while this map is iterated over (in garbagecollector for example)
@@ -277,12 +273,13 @@ func (dsm *DsManager) DeleteDataset(name string) error {
 		newDeletedDatasets[k] = v
 	}
 	newDeletedDatasets[existingDataset.InternalID] = true
-	dsm.store.deletedDatasets = newDeletedDatasets
-	verifhook.Point("dsm.delete.setswapped", name)
-	err = dsm.store.StoreObject(StoreMetaIndex, "deleteddatasets", dsm.store.deletedDatasets)
+	// remove the dataset record and persist the set of deleted datasets in one transaction: if only the
+	// record were gone after a crash, the data of the no longer listed dataset would show up in unscoped queries
+	err := dsm.store.deleteValueAndStoreObject(key, StoreMetaIndex, "deleteddatasets", newDeletedDatasets)
 	if err != nil {
 		return err
 	}
+	dsm.store.deletedDatasets = newDeletedDatasets
 	verifhook.Point("dsm.delete.setpersisted", name)
 
 	dsm.eb.UnregisterTopic(name) // unregister event-handler on this topic. Note that subscriptions are left.
